@@ -624,7 +624,74 @@ def sym_range(I, args):
 
 
 # ---------------------------------------------------------------------------
+MARKUP_CHARS = '<&"\'>'
+
+
+def markup_mode(I):
+    return bool(getattr(I.current_contract, "markup_strings", False))
+
+
+def numeral_piece(I, what="num"):
+    """text of a formatted number (%d, %.3f, f-string float spec): a fresh string without any markup-significant character
+    [library assumption A-NUMFMT: number formatting yields digits, sign, '.', 'e', 'inf', 'nan' only]"""
+    r = z3.String(I.ctx.fresh_name(what))
+    I.ctx.assume(z3.And(*[z3.Not(z3.Contains(r, z3.StringVal(ch))) for ch in MARKUP_CHARS]))
+    return r
+
+
+def markup_piece(I, x, conv, spec=""):
+    """one interpolated operand in markup mode -> a z3 string term (literal, the string itself, a numeral, or an unconstrained
+    'opaque' text for anything else rendered with %s / {})"""
+    if isinstance(x, str):
+        return z3.StringVal(x) if conv in ("s", "") and not spec else z3.StringVal(format(x, spec) if spec else x)
+    if L.is_z3(x) and z3.is_string(x):
+        if conv in ("s", ""):
+            return x
+        raise SymError("markup: string formatted with %%%s" % conv)
+    if isinstance(x, bool):
+        return z3.StringVal(str(x))
+    if isinstance(x, (int, float, Fraction)) or (L.is_z3(x) and (z3.is_int(x) or z3.is_real(x))):
+        if L.is_z3(x) or isinstance(x, Fraction):
+            return numeral_piece(I)
+        try:
+            return z3.StringVal(("%" + (spec or conv or "s")) % x if conv else format(x, spec))
+        except Exception:
+            return numeral_piece(I)
+    if conv in ("d", "f", "i", "x", "e", "g"):
+        return numeral_piece(I)
+    # anything else rendered through str(): unknown text
+    return z3.String(I.ctx.fresh_name("opaque_text"))
+
+
+def zconcat(pieces):
+    ps = []
+    for p_ in pieces:
+        if z3.is_string_value(p_) and p_.as_string() == "":
+            continue
+        if ps and z3.is_string_value(p_) and z3.is_string_value(ps[-1]):
+            ps[-1] = z3.StringVal(ps[-1].as_string() + p_.as_string())
+        else:
+            ps.append(p_)
+    if not ps:
+        return ""
+    if len(ps) == 1:
+        return ps[0] if not z3.is_string_value(ps[0]) else ps[0].as_string()
+    return z3.Concat(*ps)
+
+
 def joined_str(I, e, fr):
+    if markup_mode(I):
+        pieces = []
+        for v in e.values:
+            if isinstance(v, ast.Constant):
+                pieces.append(z3.StringVal(v.value))
+            else:
+                x = I.eval(v.value, fr)
+                spec = ""
+                if v.format_spec is not None:
+                    spec = "".join(c.value for c in v.format_spec.values if isinstance(c, ast.Constant))
+                pieces.append(markup_piece(I, x, spec[-1:] if spec else "", spec))
+        return zconcat(pieces)
     parts = []
     for v in e.values:
         if isinstance(v, ast.Constant):
@@ -655,6 +722,24 @@ class SFmtRepeat:
 
 def str_format(I, a, b, node):
     import re as _re2
+    if markup_mode(I) and isinstance(a, str):
+        args = list(b) if isinstance(b, tuple) else [b]
+        toks = _re2.split(r"(%(?:\.\d+)?[sdfixeg%])", a)
+        pieces, it = [], iter(args)
+        for t in toks:
+            if t == "%%":
+                pieces.append(z3.StringVal("%"))
+            elif t.startswith("%") and len(t) >= 2 and t[-1] in "sdfixeg":
+                try:
+                    x = next(it)
+                except StopIteration:
+                    raise _sx().SymRaise(TypeError, "not enough arguments for format string")
+                pieces.append(markup_piece(I, x, t[-1], t[1:] if t[-1] != "s" else ""))
+            elif t:
+                if "%" in t:
+                    raise SymError("markup: unsupported conversion in %r" % a)
+                pieces.append(z3.StringVal(t))
+        return zconcat(pieces)
     if isinstance(a, str) and L.is_z3(b) and z3.is_string(b) and a.count("%") == 1 and "%s" in a:
         pre, post = a.split("%s")
         return z3.Concat(z3.StringVal(pre), b, z3.StringVal(post)) if post else z3.Concat(z3.StringVal(pre), b)
